@@ -51,6 +51,11 @@ def cases(shard, tier):
                         if (seq, idlen, ident) != (1, 1, '0') and nlf > 1 and (idlen not in (1, 65) or ident not in ('0', 'Z')):
                             continue
                         yield {'header': {'seq': seq, 'idlen': idlen, 'ident': ident, 'nlf': nlf}}
+        # identifier contents: digits only, blanks at either end, lower case, punctuation (must stay left-justified)
+        for idtext in ('20240917', '7', '001', ' LEADING-BLANK', 'TRAILING-BLANK ', 'mixed Case 12', '-', '1e5', '+42'):
+            for seq in (1, 7777777777):
+                for ident in ('0', '9', 'A'):
+                    yield {'header': {'seq': seq, 'idtext': idtext, 'idlen': len(idtext), 'ident': ident, 'nlf': 1}}
         return
     if shard['first'] is None:
         yield {'history': []}
@@ -63,7 +68,7 @@ def header_spec(hd):
     ops = []
     for k in range(hd['nlf']):
         L = f'L{k}'
-        ops.append({'op': 'lf', 'h': L, 'kw': {'fh_id': ('HEADER-ID-%d-' % k + 'x' * 80)[:hd['idlen']],
+        ops.append({'op': 'lf', 'h': L, 'kw': {'fh_id': hd.get('idtext') or ('HEADER-ID-%d-' % k + 'x' * 80)[:hd['idlen']],
                                                 'fh_sequence_number': hd['seq'] + (k if hd['seq'] > 0 else 0),
                                                 'fh_identifier': hd['ident']}})
         sn = {'set_name': f'LF{k}'} if hd['nlf'] > 1 else {}
